@@ -393,7 +393,9 @@ class AEval(dtable.Eval):
                 return C(env["#Self"][1] if env.get("#Self") else self._impl_stack[-1])           # the tuple-struct constructor of the impl's own type
             if p.split("::")[-1][:1].isupper():
                 return C(p.split("::")[-1])
-            if p in ("Box::new", "Into::into", "From::from", "Rc::new", "Arc::new", "Some", "Ok", "Err", "std::convert::identity"):
+            if p in ("Box::new", "Into::into", "From::from", "Rc::new", "Arc::new", "Some", "Ok", "Err", "std::convert::identity") or \
+                    p in ("Rc::clone", "Arc::clone", "Clone::clone", "ToOwned::to_owned", "String::from", "ToString::to_string", "str::to_owned", "str::to_string", "String::clone",
+                          "AsRef::as_ref", "Box::leak", "Cow::into_owned", "std::rc::Rc::clone", "std::sync::Arc::clone"):
                 return ("ident-fn", p)
             if p in COLLECTION_CTORS:
                 return ("coll-new", p)
@@ -1411,6 +1413,10 @@ class AEval(dtable.Eval):
                 if key in self.path_builtins:
                     return self.path_builtins[key](args)
             segs = f["path"].split("::")
+            if last in getattr(self, "error_ctor_names", ()) and len(segs) >= 2 and re.match(r"^([A-Z][a-z]?|\w*Error>?)$", segs[-2]):
+                # `E::custom(..)` / `A::Error::missing_field(..)` / `<A::Error as de::Error>::custom(..)`: the error constructors of serde,
+                # through whatever name the type parameter has here
+                return C(last, *args[:1])
             if last in ("try_from", "from") and len(segs) == 2 and re.match(r"^([A-Z]|[ui](8|16|32|64|128|size)|<\$?\w+>)$", segs[0]) and ("TryFrom::" + last if last == "try_from" else "From::from") in self.path_builtins:
                 # `U::try_from(x)` / `u8::try_from(x)`: the std conversion, modelled like `TryFrom::try_from(x)`
                 return self.path_builtins["TryFrom::try_from" if last == "try_from" else "From::from"](args)
@@ -1484,6 +1490,13 @@ class AEval(dtable.Eval):
                 return args[0]
             if last == "take" and f["path"].endswith("mem::take") and len(args) == 1:
                 return args[0]
+            if last in ("call_site", "mixed_site") and not args and len(segs) >= 2 and segs[-2] == "Span":
+                return A("span")
+            if last in ("new", "new_raw") and len(args) == 2 and len(segs) >= 2 and segs[-2] == "Ident" and args[0][0] == "str" and args[1] == A("span") \
+                    and "Ident::new" not in self.path_builtins:
+                if not re.match(r"^[A-Za-z_][A-Za-z0-9_]*$", args[0][1]):
+                    raise Ret(C("!panic"))
+                return TOK(args[0][1])          # an identifier is its text, as in quote! interpolation
             if f["path"] in ("String::new", "String::default", "std::string::String::new") and not args or (f["path"] == "String::with_capacity" and len(args) == 1):
                 return ("str", "")
             if last in ("default", "new") and not args and len(segs) == 2 and segs[0][:1].isupper():
@@ -2444,7 +2457,10 @@ class AEval(dtable.Eval):
         if p["k"] == "PStruct":
             if v[0] != "ctor":
                 raise Unknown("struct pattern on non constructor")
-            if v[1] != p["path"].split("::")[-1]:
+            pname_ = p["path"].split("::")[-1]
+            if p["path"] == "Self" and (env.get("#Self") or (getattr(self, "_impl_stack", None) and self._impl_stack[-1])):
+                pname_ = env["#Self"][1] if env.get("#Self") else self._impl_stack[-1]          # `let Self { a, b, .. } = self;`
+            if v[1] != pname_:
                 return None
             fs = fields_of(v)
             out = {}
